@@ -665,6 +665,14 @@ func (e *Env) call(x *ast.CallExpr) Val {
 		mt := m.Ty.Underlying().(*types.Map)
 		k := e.ex.coerce(e.eval(x.Args[1]), mt.Key()).T
 		return Val{T: And(Not(Eq(m.T, IntLit("0"))), e.ex.mapHas(e.st, mt, m.T, k)), Ty: boolT}
+	case "visited":
+		// visited(m, k): the range loop over map m has already produced key k (ghost state of the iteration)
+		m := e.eval(x.Args[0])
+		mt := m.Ty.Underlying().(*types.Map)
+		k := e.ex.coerce(e.eval(x.Args[1]), mt.Key()).T
+		ks := c.sortOf(mt.Key())
+		hv := c.heapGet(e.st, c.keyMapVisited(mt))
+		return Val{T: Select(Select(hv, m.T, ArraySort(ks, SBool)), k, SBool), Ty: boolT}
 	case "fresh":
 		v := e.eval(x.Args[0])
 		ref := v.T
